@@ -79,3 +79,21 @@ PLANS["C09"] = {
     "require": [need_set("words", 28), need("outcome:wrapped", 100), need("outcome:division-error", 50), need("outcome:type-error", 1000),
                 need("outcome:exact", 10000), need("outcome:real", 5000)],
 }
+
+PLANS["C18"] = {
+    "jobs": {
+        "quick": [("", "release", 9030), ("", "dev", 3010)],
+        "thorough": [("", "release", 301 * 1500), ("", "dev", 301 * 300)],
+    },
+    "rule": "a case is a byte string of length idx mod 301 (every length 0..300 in every run; content random / all-zero / all-ones / "
+            "structured / printable) encoded by base32, base32hex, base64 and zero85 from one of six input forms (string, byte vector, "
+            "nested vectors, aligned bit-string, bit-string sliced at bit offset 1..7), compared with independent reference encoders, "
+            "decoded back, plus three mutated/arbitrary texts per codec and >bitstr-acceptance probes. distinct = distinct (length, "
+            "content class, repetition)",
+    "exhaustive": "byte-string lengths 0..300",
+    "assumptions": ["'text that is not valid in the alphabet' is read as: text containing a character that is neither in the alphabet "
+                    "(incl. documented case / O I L aliases) nor the padding character; such text must decode to nil. Text made of "
+                    "alphabet characters with wrong length or misplaced padding may decode to nil or to some bit-string, never an error"],
+    "require": [need("round_trips", 10000), need_set("invalid_text_classes", 7), need_set("lengths_mod_20", 20),
+                need("invalid_text_nil", 5000), need("form:unaligned-bitstr", 1000), need("acceptance_checks", 500)],
+}
